@@ -1096,3 +1096,12 @@ MUTANTS += [
  dict(id='F65-undo-read-error-collected', props=['C02'], expect='R-LEGACY-READ-ERR/legacy-read-err/',
       edits=[(MP, '\tselect {\n\tcase err := <-readErrChan:\n\t\treturn 0, err\n\tdefault:\n\t}\n\n\t<-flushDone', '\t<-flushDone')]),
 ]
+
+MUTANTS += [
+ dict(id='R6-benign-relpath-refuses-nul', props=['C03', 'C07'], expect='SILENT',
+      edits=[(MP, '\t// Check for empty path\n\tif relPath == "" {\n\t\treturn ErrInvalidRelPath\n\t}\n', '\t// Check for empty path\n\tif relPath == "" {\n\t\treturn ErrInvalidRelPath\n\t}\n\tif strings.ContainsRune(relPath, 0) {\n\t\treturn ErrInvalidRelPath\n\t}\n')]),
+ dict(id='R6-benign-close-cancels-after-close', props=['C03'], expect='SILENT',
+      edits=[(QS, '\t(*s.stream).CancelRead(0)\n\tif err := (*s.stream).Close(); err != nil {\n\t\treturn fmt.Errorf("failed to close QUIC stream: %w", err)\n\t}\n', '\terr := (*s.stream).Close()\n\t(*s.stream).CancelRead(0)\n\tif err != nil {\n\t\treturn fmt.Errorf("failed to close QUIC stream: %w", err)\n\t}\n')]),
+ dict(id='R6-benign-end-wait-with-timer-variable', props=['C03'], expect='SILENT',
+      edits=[(MS, '\tselect {\n\tcase <-ackDone:\n\tcase <-time.After(endDeliveryWait):\n\tcase <-ctx.Done():\n\t}\n\treturn nil\n}\n', '\tlinger := time.NewTimer(endDeliveryWait)\n\tdefer linger.Stop()\n\tselect {\n\tcase <-ackDone:\n\tcase <-linger.C:\n\tcase <-ctx.Done():\n\t}\n\treturn nil\n}\n')]),
+]
